@@ -148,7 +148,11 @@ def function_cases(ctx, rnd, n):
             add("GSh%d" % k, real_stmt("hFun %s %s %s" % (Rq(mg * mg), Rq(ma), Rq(mb)), hv, rtol=GS_RTOL), "hFun", [mg * mg, ma, mb], hv)
             add("GSdh%d" % k, real_stmt("dh_dsFun %s %s %s" % (Rq(m0g * m0g), Rq(ma), Rq(mb)), dh, rtol=GS_RTOL), "dh_dsFun", [m0g * m0g, ma, mb], dh)
             add("GSd%d" % k, real_stmt("dFun %s %s %s" % (Rq(m0g * m0g), Rq(ma), Rq(mb)), dF, rtol=GS_RTOL), "dFun", [m0g * m0g, ma, mb], dF)
-            add("GSf%d" % k, real_stmt("fsFun %s %s %s %s %s" % (Rq(mg * mg), Rq(m0g * m0g), Rq(g0), Rq(ma), Rq(mb)), fs, rtol=GS_RTOL, atol=1e-9), "fsFun", [mg * mg, m0g * m0g, g0, ma, mb], fs)
+            # fsFun is a difference of terms that each carry the float32-pi error: tolerance relative to the terms' magnitudes
+            ks = f1(bw.twoBodyCMmom(T(mg), T(ma), T(mb))); k0 = f1(bw.twoBodyCMmom(T(m0g), T(ma), T(mb)))
+            hm0 = f1(bw.hFun(T(m0g * m0g), T(ma), T(mb)))
+            fs_scale = abs(g0 * m0g * m0g / k0 ** 3) * (ks * ks * (abs(hv) + abs(hm0)) + abs(m0g * m0g - mg * mg) * k0 * k0 * abs(dh))
+            add("GSf%d" % k, real_stmt("fsFun %s %s %s %s %s" % (Rq(mg * mg), Rq(m0g * m0g), Rq(g0), Rq(ma), Rq(mb)), fs, rtol=0, atol=GS_RTOL * fs_scale + 1e-12), "fsFun", [mg * mg, m0g * m0g, g0, ma, mb], fs)
             v = c1(bw.GS(T(mg), T(m0g), T(g0), T(qg), T(q0g), Lg, T(d), T(ma), T(mb)))
             add("GS%d" % k, cplx_stmt("GS_from %s %s %s %s %s %s" % (Rq(mg), Rq(m0g), Rq(g0), Rq(dF), Rq(fs), Rq(gam)), v, rtol=1e-10),
                 "GS", [mg, m0g, g0, qg, q0g, Lg, d], v)
